@@ -563,6 +563,62 @@ func runC17(c *run.Ctx) {
 			c.Distinct(tupleSexp(ss) + "~" + tupleSexp(ts))
 		})
 	}
+	// long chains of constructors: two types identical down to level d that
+	// differ only at the leaf (or at one level), for every d up to 80 and at 128 / 200
+	wraps := []func(*ref.Ty) *ref.Ty{
+		func(t *ref.Ty) *ref.Ty { return ref.TList(t) },
+		func(t *ref.Ty) *ref.Ty { return ref.TMaybe(t) },
+		func(t *ref.Ty) *ref.Ty { return ref.TMap(ref.TStr, t) },
+		func(t *ref.Ty) *ref.Ty { return ref.TObj(ref.F("f", t), ref.F("n", ref.TNum)) },
+		func(t *ref.Ty) *ref.Ty { return ref.TFun([]*ref.Ty{ref.TNum}, t) },
+		func(t *ref.Ty) *ref.Ty { return ref.TObj(ref.F("n", ref.TNum), ref.F("f", t)) },
+	}
+	depths := []int{}
+	for d := 1; d <= 80; d++ {
+		depths = append(depths, d)
+	}
+	depths = append(depths, 128, 200)
+	for di, d := range depths {
+		if !c.Mine(di) {
+			continue
+		}
+		d := d
+		c.Case(fmt.Sprintf("chain/%d", d), func() {
+			r := c.Rng("chain", d)
+			for style := 0; style < 4; style++ {
+				build := func(leaf *ref.Ty, oddAt int) *ref.Ty {
+					t := leaf
+					for k := d; k >= 1; k-- {
+						w := style
+						if style == 3 {
+							w = (k * 7) % len(wraps)
+						}
+						if k == oddAt { // a different constructor at one level
+							w = (w + 1) % 3
+						}
+						t = wraps[w%len(wraps)](t)
+					}
+					return t
+				}
+				a1, a2, b := build(ref.TNum, 0), build(ref.TNum, 0), build(ref.TStr, 0)
+				at := 1 + r.Intn(d)
+				m := build(ref.TNum, at)
+				v := build(ref.TVar("a"), 0)
+				c.Input(fmt.Sprintf("chains of %d constructors, style %d", d, style))
+				checkEquals(c, a1, a2)
+				checkEquals(c, a1, b)
+				checkEquals(c, a1, m)
+				checkEquals(c, b, m)
+				checkUnify(c, []*ref.Ty{ref.TVar("x"), ref.TVar("x")}, []*ref.Ty{a1, a2})
+				checkUnify(c, []*ref.Ty{ref.TVar("x"), ref.TVar("x")}, []*ref.Ty{a1, b})
+				checkUnify(c, []*ref.Ty{ref.TVar("x"), ref.TVar("x")}, []*ref.Ty{a1, m})
+				checkUnify(c, []*ref.Ty{v}, []*ref.Ty{a1})
+				checkUnify(c, []*ref.Ty{v, ref.TVar("a")}, []*ref.Ty{a1, ref.TStr})
+				checkUnify(c, []*ref.Ty{v, v}, []*ref.Ty{a1, b})
+			}
+			c.Distinct(fmt.Sprintf("chain/%d", d))
+		})
+	}
 	// transitivity of Equals on sampled triples with permuted object fields
 	for i := 0; i < c.Pick(20000, 300000); i++ {
 		if !c.Mine(i) {
@@ -586,7 +642,7 @@ func runC17(c *run.Ctx) {
 func init() {
 	run.Register(&run.Spec{
 		ID: "C17", Run: runC17, Level: "exploration",
-		Rule: "all pairs of types of depth <= 1 over {num,str,bool,time,'a,'b,⊥} x {list, maybe, map, obj with 1-2 fields in both orders, fun} (231 types, 53 361 pairs, exhaustive: true), pairs of depth <= 2 over a reduced operand pool (all in thorough, 1/23 in quick), random 2-3 tuples with repeated variables on both sides and ground instances, random types to depth 4 with objects of up to 9 fields and tuples of up to 6 against tweaked copies (permuted fields, changed leaves, instantiations), Equals with one physical node used for two occurrences; fresh nodes per side as the checker presents them; " +
+		Rule: "all pairs of types of depth <= 1 over {num,str,bool,time,'a,'b,⊥} x {list, maybe, map, obj with 1-2 fields in both orders, fun} (231 types, 53 361 pairs, exhaustive: true), pairs of depth <= 2 over a reduced operand pool (all in thorough, 1/23 in quick), random 2-3 tuples with repeated variables on both sides and ground instances, random types to depth 4 with objects of up to 9 fields and tuples of up to 6 against tweaked copies (permuted fields, changed leaves, instantiations), Equals with one physical node used for two occurrences; chains of 1..80, 128 and 200 constructors (four styles) that differ only at the leaf or at one level; fresh nodes per side as the checker presents them; " +
 			"monitors: Equals reflexive / symmetric / == reference structural equality; Unify never rewrites its operands and a pattern object stays usable for a second instance; on Unify success: own occurs check over the returned substitution, substituted sides equal (⊥ on the right may face anything); pattern vs variable-free ⊥-free type: success iff the reference one-way matcher finds an instantiation. distinct = distinct ordered pair",
 		Assume:    []string{"argument tuples only as the outermost constructor", "no physical sharing between the two sides of Unify (the checker substitutes the left side freshly)"},
 		MinEvents: 50000, EventKey: "unify_pairs",
